@@ -38,6 +38,26 @@ def run_case(acc, case):
     fw = bytes(rng.randrange(256) for _ in range(min(length, 4096)))
     if length > 4096:
         fw = (fw * (length // 4096 + 1))[:length]
+    # content classes: the image is data, not text - runs of 0x00 / 0xff at either end or covering whole pages must be flashed too
+    content = ['random', 'zero-tail', 'ff-tail', 'zero-head', 'all-zero', 'all-ff', 'zero-page-inside', 'random'][case['sched'] % 8]
+    if length and content != 'random':
+        fwb = bytearray(fw)
+        run = min(length, rng.choice([1, 2, 600, 1024, 1025, 2048, 3000]))
+        if content == 'zero-tail':
+            fwb[length - run:] = bytes(run)
+        elif content == 'ff-tail':
+            fwb[length - run:] = b'\xff' * run
+        elif content == 'zero-head':
+            fwb[:run] = bytes(run)
+        elif content == 'all-zero':
+            fwb[:] = bytes(length)
+        elif content == 'all-ff':
+            fwb[:] = b'\xff' * length
+        elif content == 'zero-page-inside' and length > 2048:
+            p0 = 1024 * rng.randrange(0, length // 1024)
+            fwb[p0:p0 + 1024] = bytes(min(1024, length - p0))
+        fw = bytes(fwb)
+    core.see(acc, 'firmware_content_classes', content)
     # make sure the image is not trivially equal to erased / zero flash
     npages = -(-length // dfusim.PAGE)
     busy, final = schedule(rng, 3 * npages + 2, case.get('heavy', False))
@@ -51,7 +71,7 @@ def run_case(acc, case):
     if npages:
         acc['ntkeys'].add(core.ckey(variant, length, case['sched'], case.get('start_error', False)))
     probs = []
-    if r.code != 0 or not r.done_printed:
+    if r.code != 0:
         probs.append('run did not complete: exit %r, output tail %r' % (r.code, r.stdout[-160:]))
     else:
         padded = npages * dfusim.PAGE
